@@ -190,6 +190,9 @@ class CoderState(object):
         self.back_reference_boundary = 0
         self.back_referenced_descriptors = None
 
+    def cancel_new_refvals(self):
+        self.new_refvals = {}
+
     def mark_back_reference_boundary(self):
         self.back_reference_boundary = len(self.decoded_descriptors)
 
@@ -561,7 +564,7 @@ class Coder(object):
             else:
                 state.nbits_of_new_refval = operand_value
                 if operand_value == 0:
-                    state.new_refvals = {}
+                    state.cancel_new_refvals()
 
         elif operator_code == 204:  # associated field
             if operand_value == 0:
